@@ -14,3 +14,4 @@ void h_segment_os_alloc(void) {
   mi_segment_t* s = mi_segment_os_alloc(vc_nondet_size("required"), vc_nondet_size("page_alignment"), vc_nondet_bool("eager_delayed"), vc_nondet_int("req_arena_id"), ps, pi, vc_nondet_bool("commit"), tld);
   VC_REACH();
 }
+void h_segment_os_free(void) { g_rc0 = vc_nondet_size("g_rc0"); mi_segment_t* s; mi_segments_tld_t* tld; mi_segment_os_free(s, tld); VC_REACH(); }
